@@ -32,6 +32,13 @@ def spec(tier):
     vals("values_laws", dict(l0=I(0, 6), l1=I(0, 6)))
     vals("values_arrivals", dict(arr1=I(0, 15), arr2=I(0, 15)))
     vals("values_priorities", dict(prio1=I(1, 3), prio2=I(1, 3)))
+    # through WorkloadTraceGenerator.generate_rows (the writer's entry point) with a scripted workload; the pipelines' own ids may coincide
+    for sid in (True, False):
+        f = dict(base)
+        for k in ("e0", "e1", "e2", "prio1", "n1"):
+            f.pop(k)
+        obs.append(CH(name=f"via_generator_same_id{int(sid)}", harness="c14.write_read", sym=dict(e0=B, e1=B, e2=B, prio1=I(1, 3), gen_t1=I(0, 3), gen_t2=I(0, 3)),
+                      fixed=dict(f, n1=3, n2=2, same_id=sid), timeout=900))
     tsym = dict(e0=B, e1=B, e2=B, prio1=I(1, 3), k0=I(0, 2))
     tfix = dict(n1=3, n2=1, prio2=1, l0=0, l1=3, l2=2, l3=6, k1=0, k2=1, k3=2, v0=3, v1=5, v2=8, v3=0, arr1=4, arr2=4, e3=False, e4=False, e5=False)
     for w in ("multiparent", "multiroot", "mem0"):
